@@ -16,7 +16,7 @@ import numpy as np
 from harness import mps_common as mc
 
 SUBS = ['cover', 'cover', 'cover', 'charge', 'charge', 'charge', 'glue_parse', 'glue_convert', 'glue_theta',
-        'glue_entropy']
+        'glue_entropy', 'pstate', 'pstate', 'pstate', 'pstate']
 TOL = 1e-10
 
 
@@ -40,6 +40,8 @@ def eval_ext(case):
             ev = eval_theta(case)
         elif sub == 'glue_entropy':
             ev = eval_entropy(case)
+        elif sub == 'pstate':
+            ev = eval_pstate(case)
         else:
             raise ValueError(sub)
     ev.setdefault('hist', []).append('ext=' + sub)
@@ -755,6 +757,267 @@ def cmp_entropy(want, out):
     return None
 
 
-COMPARERS = {'invalid': cmp_invalid, 'cover-state': cmp_cover_state, 'cover-tensors': cmp_cover_tensors,
+# ----------------------------------------------------------------------------------------------------------------
+# D: p_state entries (int / 1D array / label, permute on/off) on every predefined site class x conserve option
+
+
+def all_site_kinds():
+    out = []
+    for c in (None, 'Sz', 'parity'):
+        out.append(('SpinHalfSite', dict(conserve=c)))
+    for s2 in (1, 2, 3, 4, 5):
+        for c in (None, 'Sz', 'parity'):
+            out.append(('SpinSite', dict(S=s2 / 2.0, conserve=c)))
+    for c in (None, 'N', 'parity'):
+        out.append(('FermionSite', dict(conserve=c)))
+    for cls in ('SpinHalfFermionSite', 'SpinHalfHoleSite'):
+        for cn in (None, 'N', 'parity'):
+            for cs in (None, 'Sz', 'parity'):
+                out.append((cls, dict(cons_N=cn, cons_Sz=cs)))
+    for n in (1, 2, 3, 4, 5):
+        for c in (None, 'N', 'parity'):
+            out.append(('BosonSite', dict(Nmax=n, conserve=c)))
+    for q in (2, 3, 4, 5):
+        for c in (None, 'Z'):
+            out.append(('ClockSite', dict(q=q, conserve=c)))
+    return out
+
+
+ALL_SITE_KINDS = all_site_kinds()
+CONS_KEYS = ('conserve', 'cons_N', 'cons_Sz')
+
+
+def site_pair(name, kw):
+    """(site, the same site without conservation, old index -> new index through the state LABELS — independent of
+    `site.perm`)."""
+    from tenpy.networks import site as S
+    s = getattr(S, name)(**kw)
+    s0 = getattr(S, name)(**{k: (None if k in CONS_KEYS else v) for k, v in kw.items()})
+    lab0 = {}
+    for lab, i in sorted(s0.state_labels.items()):
+        lab0.setdefault(i, []).append(lab)
+    o2n = [s.state_labels[lab0[i][0]] for i in range(s0.dim)]
+    return s, s0, lab0, o2n
+
+
+def eval_pstate(case):
+    from tenpy.networks.mps import MPS
+    rnd = random.Random(case['seed'])
+    nprng = np.random.default_rng(case['seed'])
+    pool = ALL_SITE_KINDS
+    for _ in range(100):
+        name, kw = rnd.choice(pool)
+        s, s0, lab0, o2n = site_pair(name, kw)
+        if rnd.random() < 0.5 or o2n != list(np.argsort(o2n)):   # half of the draws insist on a non-involutive permutation
+            break
+    d = s.dim
+    charged = s.leg.chinfo.qnumber > 0
+    how = rnd.choice(['product', 'product', 'product', 'product', 'lat', 'lat', 'singlets', 'covering', 'rue'])
+    if how == 'rue' and not charged:
+        how = 'product'
+    Lmax = max(1, int(np.log(3000) / np.log(d)))
+    L = rnd.randint(1, min(5, Lmax))
+    permute = rnd.random() < 0.8
+    cplx = rnd.random() < 0.3
+    qold = s.leg.to_qflat()[np.array(o2n)]  # charge of the OLD basis state k (through the labels)
+    hist = ['ext.pstate.site=%s' % name, 'ext.pstate.cons=%s' % ','.join(str(kw[k]) for k in CONS_KEYS if k in kw),
+            'ext.pstate.how=' + how, 'ext.pstate.permute=%s' % permute,
+            'ext.pstate.noninvolutive=%s' % (o2n != list(np.argsort(o2n)))]
+    oracle, lines, expects = [], [], []
+
+    def draw_entry(modes=('int', 'vec', 'label')):
+        """-> (p_state entry, intended local vector in the NEW basis (independent of site.perm), mode, old index|None)"""
+        mode = rnd.choice(modes)
+        k = rnd.randrange(d)
+        if mode == 'label':
+            lab = rnd.choice(lab0[k])
+            want = np.zeros(d)
+            want[o2n[k]] = 1.0
+            return lab, want, mode, k
+        if mode == 'int':
+            want = np.zeros(d)
+            if permute:
+                want[o2n[k]] = 1.0   # `k` counts in the conserve=None order
+            else:
+                want[k] = 1.0        # `k` counts in the site's own order
+            return k, want, mode, (k if permute else None)
+        # 1D array: superposition inside one charge sector
+        same = [j for j in range(d) if np.array_equal(qold[j], qold[k])] if charged else list(range(d))
+        v = np.zeros(d, dtype=complex if cplx else float)
+        for j in rnd.sample(same, rnd.randint(1, min(3, len(same)))):
+            v[j] = rnd.choice([-1.5, -1.0, -0.5, 0.5, 1.0, 2.0]) + (1j * rnd.choice([-1.0, 0.5, 0.0]) if cplx else 0.0)
+        want = np.zeros(d, dtype=v.dtype)
+        if permute:
+            want[np.array(o2n)] = v          # entry of old state j lands at its new index
+            given = v
+        else:
+            # with permute=False the array is read in the site's own order: hand over the new-basis vector
+            want[np.array(o2n)] = v
+            given = want.copy()
+        return given, want, mode, None
+
+    dtype = complex if cplx else float
+    if how in ('product', 'lat', 'rue'):
+        bc = rnd.choice(['finite', 'finite', 'infinite', 'segment']) if how == 'product' else 'finite'
+        if how == 'lat':
+            from tenpy.models import lattice as lt
+            shape = rnd.choice([(2,), (3,), (2, 2), (3, 2)]) if d <= 3 else rnd.choice([(2,), (3,), (2, 2)])
+            if len(shape) == 1:
+                lat = rnd.choice([lt.Chain(shape[0], s, bc='open', bc_MPS='finite'),
+                                  lt.Ladder(shape[0], s, bc='open', bc_MPS='finite')]) if d <= 3 else \
+                    lt.Chain(shape[0], s, bc='open', bc_MPS='finite')
+            else:
+                lat = lt.Square(shape[0], shape[1], s, order=rnd.choice(['default', 'snake', 'Fstyle']), bc='open',
+                                bc_MPS='finite')
+            modes = rnd.choice([('int',), ('label',), ('int', 'label'), ('vec',)])
+            cells = np.empty(lat.shape, dtype=object)
+            wants_c = {}
+            for idx in itertools.product(*[range(n) for n in lat.shape]):
+                e, w, m, _ = draw_entry(modes)
+                cells[idx] = e
+                wants_c[idx] = w
+            if modes == ('vec',):
+                p_arg = np.array([[cells[idx] for idx in itertools.product(*[range(n) for n in lat.shape])]],
+                                 dtype=dtype).reshape(lat.shape + (d,))
+            else:
+                p_arg = cells
+            wants = [wants_c[tuple(int(x) for x in lat.order[i])] for i in range(lat.N_sites)]
+            L = lat.N_sites
+            psi = MPS.from_lat_product_state(lat, p_arg, dtype=dtype, permute=permute)
+            entries, labelled = None, None
+        else:
+            drawn = [draw_entry(('int',) if how == 'rue' else ('int', 'vec', 'label')) for _ in range(L)]
+            entries = [e for e, _, _, _ in drawn]
+            wants = [w for _, w, _, _ in drawn]
+            labelled = [m == 'label' for _, _, m, _ in drawn]
+            if how == 'rue':
+                L = max(L, 3)
+                while len(entries) < L:
+                    e, w, m, _ = draw_entry(('int',))
+                    entries.append(e); wants.append(w); labelled.append(False)
+                np.random.seed(case['seed'] % (2 ** 31))
+                psi = MPS.from_random_unitary_evolution([s] * L, 3, entries, bc='finite', dtype=complex, permute=permute)
+                # the charge sector of the product state is kept
+                qs = [s.leg.to_qflat()[int(np.argmax(np.abs(w)))] for w in wants]
+                want_q = s.leg.chinfo.make_valid(np.sum(qs, axis=0))
+                got_q = psi.get_total_charge(only_physical_legs=True)
+                if np.any(got_q != want_q):
+                    oracle.append(('C07.ext.pstate.random-unitary-charge-sector',
+                                   'p_state %r on %s%r: total charge %r, product state has %r' % (entries, name, kw, got_q, want_q)))
+                if abs(psi.norm - 1) > 1e-9 or np.max(psi.norm_test()) > 1e-8:
+                    oracle.append(('C07.ext.pstate.random-unitary-canonical', 'norm %r' % psi.norm))
+                return dict(oracle=oracle, lines=[], nontrivial=True, hist=hist)
+            psi = MPS.from_product_state([s] * L, entries, bc=bc, dtype=dtype, permute=permute,
+                                         form=rnd.choice(['A', 'B', 'C']), unit_cell_width=L)
+        # oracle: stored tensors (bond dimension 1) = the intended local vectors, site by site, and the dense state
+        Bs = mc.stored_tensors(psi)[0]
+        for i, (B, w) in enumerate(zip(Bs, wants)):
+            if B.shape != (1, d, 1) or not mc.close(B[0, :, 0], w, 1e-13):
+                oracle.append(('C07.ext.pstate.local-state', 'site %d of %s%r, p_state entry %r, permute=%s: stored %r, '
+                               'intended (new basis, via the state labels) %r' % (
+                                   i, name, kw, None if entries is None else entries[i] if not isinstance(entries[i], np.ndarray) else entries[i].tolist(),
+                                   permute, np.round(B[0, :, 0], 6).tolist() if B.shape == (1, d, 1) else B.shape, np.round(w, 6).tolist())))
+                break
+        if psi.bc == 'finite' and not oracle:
+            ref = wants[0]
+            for w in wants[1:]:
+                ref = np.multiply.outer(ref, w)
+            st = mc.np_state(psi)
+            if not mc.close(st, ref, 1e-12):
+                oracle.append(('C07.ext.pstate.dense-state', 'max err %.3g' % mc.maxerr(st, ref)))
+        # int vs label specification of the same basis state; expectation value of a diagonal operator
+        if entries is not None and all(not isinstance(e, np.ndarray) for e in entries):
+            labs = []
+            for e, w in zip(entries, wants):
+                knew = int(np.argmax(np.abs(w)))
+                labs.append([lab for lab, i in sorted(s.state_labels.items()) if i == knew][0])
+            psi_l = MPS.from_product_state([s] * L, labs, bc=psi.bc, dtype=dtype, form='B', unit_cell_width=L)
+            if psi.bc == 'finite':
+                ov = psi.overlap(psi_l)
+                if abs(ov - 1) > 1e-12:
+                    oracle.append(('C07.ext.pstate.int-vs-label-overlap', 'p_state %r vs labels %r: overlap %r' % (entries, labs, ov)))
+            for opn in ('Sz', 'N', 'Ntot'):
+                if opn in s0.opnames and opn in s.opnames:
+                    dg = np.real(np.diag(s0.get_op(opn).to_ndarray()))
+                    inv = np.argsort(o2n)  # new -> old
+                    want_e = [float(dg[inv[int(np.argmax(np.abs(w)))]]) for w in wants]
+                    got_e = psi.expectation_value(opn)
+                    if not mc.close(np.asarray(got_e, dtype=float), np.array(want_e), 1e-12):
+                        oracle.append(('C07.ext.pstate.expectation-value', '<%s>: %r, the specified states have %r' % (opn, list(got_e), want_e)))
+                    break
+        # model: localAmp with the site's perm, compared with the stored tensors entry by entry
+        if entries is not None:
+            sj = []
+            for e, lab in zip(entries, labelled):
+                if lab:
+                    ent = int(s.state_labels[e])
+                elif isinstance(e, np.ndarray):
+                    ent = mc.enc_flat(e)
+                else:
+                    ent = int(e)
+                sj.append(dict(d=d, perm=[int(x) for x in s.perm], labelled=bool(lab), entry=ent))
+            lines.append(dict(op='pstate', permute=permute, sites=sj))
+            expects.append(('pstate', [B[0, :, 0] for B in Bs], 'C07.ext.pstate.model'))
+        return dict(oracle=oracle[:2], lines=lines, compare=_mk_compare(expects), nontrivial=True, hist=hist)
+    # from_singlets with int up/down and from_product_mps_covering of one-site states: both go through from_product_state
+    if how == 'singlets':
+        L = 2 * rnd.randint(1, max(1, min(3, Lmax) // 2 if Lmax >= 2 else 1))
+        if d ** L > 5000:
+            L = 2
+        up, down = rnd.sample(range(d), 2)
+        if charged and rnd.random() < 0.5:
+            pass
+        idx = list(range(L))
+        rnd.shuffle(idx)
+        # pairs (i, j) with i < j: for fermionic sites (SpinHalfFermion/Hole) sorting an unsorted pair swaps two fermions and
+        # the sign of the singlet is a matter of convention; unsorted pairs are exercised by the main part on bosonic sites
+        pairs = [tuple(sorted((idx[2 * j], idx[2 * j + 1]))) for j in range(L // 2)]
+        try:
+            psi = MPS.from_singlets(s, L, pairs, up=up, down=down, bc='finite', unit_cell_width=L)
+        except ValueError as e:
+            if 'incompatible LegCharge' in str(e):
+                return dict(skip='ext.pstate: singlet covering refused (known finding of the main part)', hist=hist)
+            raise
+        ref = np.zeros([d] * L)
+        nu, nd = o2n[up], o2n[down]
+        for signs in itertools.product([0, 1], repeat=len(pairs)):
+            ix, amp = [None] * L, 1.0
+            for (a, b), sg in zip(pairs, signs):
+                ix[a], ix[b] = (nu, nd) if sg == 0 else (nd, nu)
+                amp *= (0.5 ** 0.5) * (1 if sg == 0 else -1)
+            ref[tuple(ix)] += amp
+        st = mc.np_state(psi)
+        if not mc.close(st, ref, 1e-10):
+            oracle.append(('C07.ext.pstate.singlets-int-states', 'from_singlets(up=%d, down=%d) on %s%r pairs %r: max err %.3g' % (
+                up, down, name, kw, pairs, mc.maxerr(st, ref))))
+        return dict(oracle=oracle, lines=[], nontrivial=True, hist=hist)
+    # covering of one-site product states given as int
+    L = rnd.randint(2, min(4, max(2, Lmax)))
+    ks = [rnd.randrange(d) for _ in range(L)]
+    locs = [MPS.from_product_state([s], [k], unit_cell_width=1) for k in ks]
+    order = list(range(L))
+    rnd.shuffle(order)
+    psi = MPS.from_product_mps_covering(locs, [[i] for i in order], bc='finite', unit_cell_width=L)
+    ref = np.zeros([d] * L)
+    pos = [None] * L
+    for k, i in zip(ks, order):
+        pos[i] = o2n[k]
+    ref[tuple(pos)] = 1.0
+    st = mc.np_state(psi)
+    if not mc.close(st, ref, 1e-12):
+        oracle.append(('C07.ext.pstate.covering-int-states', 'one-site states %r at sites %r on %s%r: max err %.3g' % (
+            ks, order, name, kw, mc.maxerr(st, ref))))
+    return dict(oracle=oracle, lines=[], nontrivial=True, hist=hist)
+
+
+def cmp_pstate(want, out):
+    for i, (w, v) in enumerate(zip(want, out['vecs'])):
+        got = mc.dec_list(v)
+        if got.shape != w.shape or not np.array_equal(got, w):
+            return 'site %d: model local vector %r, stored tensor %r' % (i, got.tolist(), np.asarray(w).tolist())
+    return None
+
+
+COMPARERS = {'pstate': cmp_pstate, 'invalid': cmp_invalid, 'cover-state': cmp_cover_state, 'cover-tensors': cmp_cover_tensors,
              'charge': cmp_charge, 'parse': cmp_parse, 'convert': cmp_convert, 'theta': cmp_theta,
              'entropy': cmp_entropy}
